@@ -533,28 +533,35 @@ func runC04(c *Ctx) {
 		}
 		nH, nU := 0, 0
 		for _, rt := range s.Rets {
-			v := rt.Vals[0]
-			if v.Op != "call" || !strings.HasSuffix(v.Aux, "regexp.Regexp).MatchString") {
-				continue
-			}
-			arg := v.Args[1]
-			switch {
-			case arg.Op == "field" && arg.Args[0] == r && arg.Aux == "Hostname":
-				nH++
-				if sel == False || !u.bdd.Implies(rt.Cond, sel) {
-					bad = "the hostname is matched outside the true edge of the target selector"
+			for v, c1 := range u.Leaves(rt.Vals[0]) {
+				if v.Op != "call" || !strings.HasSuffix(v.Aux, "regexp.Regexp).MatchString") {
+					continue
 				}
-			case arg.Op == "field" && arg.Args[0] == r && arg.Aux == "URL":
-				nU++
-				if sel == False || !u.bdd.Implies(rt.Cond, u.bdd.Not(sel)) {
-					bad = "the URL is matched outside the false edge of the target selector"
+				// the matched text may itself be selected by a condition (target := URL; if sel { target = Hostname })
+				for arg, c2 := range u.Leaves(v.Args[1]) {
+					cond := u.bdd.And(rt.Cond, u.bdd.And(c1, c2))
+					if cond == False {
+						continue
+					}
+					switch {
+					case arg.Op == "field" && arg.Args[0] == r && arg.Aux == "Hostname":
+						nH++
+						if sel == False || !u.bdd.Implies(cond, sel) {
+							bad = "the hostname is matched outside the true edge of the target selector"
+						}
+					case arg.Op == "field" && arg.Args[0] == r && arg.Aux == "URL":
+						nU++
+						if sel == False || !u.bdd.Implies(cond, u.bdd.Not(sel)) {
+							bad = "the URL is matched outside the false edge of the target selector"
+						}
+					default:
+						bad = "the pattern is matched against " + clip(u.Show(arg), 60)
+					}
 				}
-			default:
-				bad = "the pattern is matched against " + clip(u.Show(arg), 60)
 			}
 		}
-		if nH != 1 || nU != 1 {
-			bad = fmt.Sprintf("expected one hostname and one URL match site, found %d/%d", nH, nU)
+		if (nH == 0 || nU == 0) && bad == "" {
+			bad = fmt.Sprintf("expected a hostname and a URL match site, found %d/%d", nH, nU)
 		}
 		c.Check(bad == "", "C04.R7", shortFn(cj.fn)+": hostname on the true edge of the target selector, URL on the false edge", cj.fn.Pos(), "regex.MatchString(r.Hostname) / regex.MatchString(r.URL)", bad)
 	} else {
